@@ -22,7 +22,7 @@ def case(proto, port, hosts, steps, disp=None):
     for h in hosts:
         out.append("res host %s" % hx(h))
     for i, (h, o) in enumerate(steps):
-        if o is None: out.append("res fail %s" % hx(h))
+        if o is None: out.append("res %s %s" % (["fail", "failnf", "fail", "failtmp"][(i + len(steps)) % 4], hx(h)))
         else: out.append(("res ok %s " % hx(h) + " ".join(hx(x) for x in o)).rstrip())
         if proto == "udp" and (disp is None and i == len(steps) - 1 or disp is not None and i in disp):
             out.append("res disp")
@@ -74,7 +74,7 @@ def generate(seed, tier):
             if two and pa == pb:
                 pool = IPS[:2] if h == ha else IPS[3:]   # same port: disjoint address sets (the property's domain)
             if g.chance(0.3):
-                lines.append("res2 fail %s" % hx(h))
+                lines.append("res2 %s %s" % (g.pick(["fail", "failnf", "failtmp"]), hx(h)))
             else:
                 lines.append(("res2 ok %s " % hx(h) + " ".join(hx(x) for x in pool if g.chance(0.6))).rstrip())
             if g.chance(0.15):
